@@ -34,8 +34,220 @@ def run(repo: Repo, chk: Check) -> None:
     wrap(repo, chk)
     all_blocks(repo, chk)
     disjoint(repo, chk)
+    no_skip(repo, chk)
     xdma_by_type(repo, chk)
+    all_extensions(repo, chk)
     order(repo, chk)
+
+
+def _paths(stmts: list[ast.stmt], is_event) -> list[tuple[list[tuple[ast.expr, bool]], set[str], str]]:
+    """paths through one loop iteration: (branch conditions with polarity, events seen, how the iteration ends). Nested loops count as a statement
+    that may or may not produce its events; try / with / match are not supported (caller raises)."""
+    out: list[tuple[list[tuple[ast.expr, bool]], set[str], str]] = []
+
+    def go(rest: list[ast.stmt], conds: list[tuple[ast.expr, bool]], ev: set[str]) -> None:
+        if not rest:
+            out.append((conds, ev, "end"))
+            return
+        st, tail = rest[0], rest[1:]
+        if isinstance(st, ast.If):
+            go(st.body + tail, conds + [(st.test, True)], set(ev))
+            go(st.orelse + tail, conds + [(st.test, False)], set(ev))
+            return
+        if isinstance(st, (ast.Continue, ast.Break, ast.Return)):
+            out.append((conds, ev, type(st).__name__.lower()))
+            return
+        if isinstance(st, ast.Raise):
+            return
+        if isinstance(st, (ast.Try, ast.With, ast.Match, ast.While)):
+            raise AnalysisError(f"line {st.lineno}: {type(st).__name__} inside the dispatcher loop is not modelled")
+        e = set(ev)
+        for lab in is_event(st):
+            e.add(lab)
+        go(tail, conds, e)
+
+    go(stmts, [], set())
+    return out
+
+
+def no_skip(repo: Repo, chk: Check) -> None:
+    """the run of collected ops must end AT the first op that is not collected: an iteration that neither collects the current op nor flushes,
+    while ops are pending, lets the group swallow later ops across the current one - which then executes before (or after) ops it followed"""
+    import itertools
+
+    outer = repo.func(DISPATCH, "DispatchRegionsRewriter.match_and_rewrite")
+    f = outer.nested("dispatcher")
+    chk.rule("C14.no-skip", "every iteration of the dispatcher walk that starts with ops pending either collects the current op or flushes the pending group "
+             "(no op is passed over while a group is open)", floor=1)
+    loops = [n for n in ast.walk(f.node) if isinstance(n, ast.For) and isinstance(n.target, ast.Name)
+             and any(isinstance(c, ast.Call) and callee_name(c) == "append" and c.args and isinstance(c.args[0], ast.Name) and c.args[0].id == n.target.id for c in ast.walk(n))]
+    if len(loops) != 1:
+        # no pending group is kept across iterations in a shape this clause reads: C14.wrap (which requires the collecting walk) decides
+        chk.floors["C14.no-skip"] = 0
+        chk.observe(f"C14.no-skip not evaluated: {len(loops)} walks collect their own loop variable")
+        return
+    loop = loops[0]
+    opv = loop.target.id  # type: ignore[attr-defined]
+    app = next(c for c in ast.walk(loop) if isinstance(c, ast.Call) and callee_name(c) == "append" and c.args and isinstance(c.args[0], ast.Name) and c.args[0].id == opv)
+    lst = ast.unparse(app.func.value)  # type: ignore[attr-defined]
+
+    # local helpers (closures of the dispatcher or of its caller) that reset the pending list when called
+    def _resets(fn: ast.AST) -> bool:
+        for n in ast.walk(fn):
+            if isinstance(n, ast.Call) and norm.match(T("$l.clear()"), n, {"l": lst}) is not None:
+                return True
+            if isinstance(n, (ast.Assign, ast.AnnAssign)) and ast.unparse(n.targets[0] if isinstance(n, ast.Assign) else n.target) == lst and (
+                    isinstance(n.value, (ast.List, ast.Tuple)) and not n.value.elts) and any(isinstance(g_, ast.Nonlocal) and lst in g_.names for g_ in ast.walk(fn)):
+                return True
+            if isinstance(n, ast.Delete) and any(ast.unparse(t_) == f"{lst}[:]" for t_ in n.targets):
+                return True
+        return False
+
+    flushers = {n.name for n in ast.walk(outer.node) if isinstance(n, ast.FunctionDef) and n is not f.node and n is not outer.node and _resets(n)}
+
+    def is_event(st: ast.stmt) -> list[str]:
+        labs = []
+        for n in ast.walk(st):
+            if isinstance(n, ast.Call) and isinstance(n.func, ast.Name) and n.func.id in flushers:
+                labs.append("flush")
+            if isinstance(n, ast.Call) and callee_name(n) in ("append", "insert", "extend") and isinstance(n.func, ast.Attribute) and ast.unparse(n.func.value) == lst and any(
+                    isinstance(a, ast.Name) and a.id == opv for x in n.args for a in ast.walk(x)):
+                labs.append("collect")
+            if isinstance(n, ast.Call) and norm.match(T("$l.clear()"), n, {"l": lst}) is not None:
+                labs.append("flush")
+        if isinstance(st, (ast.Assign, ast.AnnAssign)) and ast.unparse(st.targets[0] if isinstance(st, ast.Assign) else st.target) == lst:
+            v = st.value
+            if isinstance(v, (ast.List, ast.Tuple)) and not v.elts or (isinstance(v, ast.Call) and callee_name(v) == "list" and not v.args):
+                labs.append("flush")
+            elif isinstance(v, (ast.List, ast.Tuple)) and len(v.elts) == 1 and isinstance(v.elts[0], ast.Name) and v.elts[0].id == opv:
+                labs += ["flush", "collect"]
+        if isinstance(st, ast.For):
+            pass
+        return labs
+
+    paths = _paths(loop.body, is_event)
+    pend_true = [f"len({lst})", lst, f"len({lst}) > 0", f"len({lst}) != 0", f"len({lst}) >= 1", f"bool({lst})"]
+    pend_false = [f"not {lst}", f"len({lst}) == 0", f"not len({lst})", f"len({lst}) < 1"]
+
+    def atomise(e: ast.expr, table: dict[str, int]):
+        """boolean structure over atoms; the emptiness tests of the pending list are one atom (index 0)"""
+        e = norm.canon(e)
+        txt = ast.unparse(e)
+        if txt in pend_true:
+            return ("atom", 0)
+        if txt in pend_false:
+            return ("not", ("atom", 0))
+        if isinstance(e, ast.BoolOp):
+            return ("and" if isinstance(e.op, ast.And) else "or", [atomise(v, table) for v in e.values])
+        if isinstance(e, ast.UnaryOp) and isinstance(e.op, ast.Not):
+            return ("not", atomise(e.operand, table))
+        # a comparison and its negation are one atom
+        neg = ast.unparse(norm.canon(norm.negate(e)))
+        if neg in table:
+            return ("not", ("atom", table[neg]))
+        return ("atom", table.setdefault(txt, len(table) + 1))
+
+    def ev(t, asg) -> bool:
+        k = t[0]
+        if k == "atom":
+            return asg[t[1]]
+        if k == "not":
+            return not ev(t[1], asg)
+        if k == "and":
+            return all(ev(x, asg) for x in t[1])
+        return any(ev(x, asg) for x in t[1])
+
+    bad_paths = []
+    for conds, events, how in paths:
+        if "collect" in events or "flush" in events:
+            continue
+        table: dict[str, int] = {}
+        forms = [(atomise(c, table), pol) for c, pol in conds]
+        n_atoms = len(table) + 1
+        if n_atoms > 12:
+            raise AnalysisError(f"{f.where}: too many conditions on one path through the dispatcher loop")
+        for bits in itertools.product([False, True], repeat=n_atoms - 1):
+            asg = [True, *bits]  # pending group non-empty at the start of the iteration
+            if all(ev(t, asg) == pol for t, pol in forms):
+                inv = {v: k for k, v in table.items()}
+                bad_paths.append((how, [("" if asg[i] else "not ") + inv[i] for i in range(1, n_atoms)][:4], conds[0][0].lineno if conds else loop.lineno))
+                break
+    chk.result(not bad_paths, "C14.no-skip", f"{f.key}:every-op-ends-or-joins-the-group", f"{f.module.relpath}:{bad_paths[0][2] if bad_paths else loop.lineno}",
+               f"all {len(paths)} paths through an iteration collect the op, flush the group, or start with no op pending",
+               f"with ops pending, an iteration can end ({bad_paths[0][0] if bad_paths else ''}) without collecting the current op and without flushing, e.g. when "
+               f"{bad_paths[0][1] if bad_paths else ''}: the op is passed over and the group later moves as one block, so the ops collected after it execute before it")
+
+
+def all_extensions(repo: Repo, chk: Check) -> None:
+    """`the kernel is provided by a streamer extension` quantifies over every extension of XDMA_EXT_SET. A lookup table built from the set answers the
+    same question only if its key tells the extensions apart - two extensions may support the same kernel op for different element types"""
+    chk.rule("C14.all-extensions", "both dispatch rules compare the region's kernel with the supported kernel of EVERY extension in XDMA_EXT_SET (a scan of the set, or a table "
+             "whose key is distinct for all extensions that support a kernel)", floor=2)
+    ext_mod = repo.module("snaxc/accelerators/streamers/extensions/__init__.py")
+    ext_set = ext_mod.consts.get("XDMA_EXT_SET")
+    if not isinstance(ext_set, (ast.Tuple, ast.List, ast.Set)):
+        raise AnalysisError("XDMA_EXT_SET is not a literal collection of extension classes")
+    kernels: dict[str, tuple[str, str] | None] = {}
+    for e in ext_set.elts:
+        nm = ast.unparse(e).split(".")[-1]
+        cls = next((c for c in repo.all_classes() if c.name == nm), None)
+        if cls is None:
+            raise AnalysisError(f"extension class {nm} not found")
+        sk = None
+        found = False
+        for c in [cls, *repo.mro(cls)[1:]] if hasattr(repo, "mro") else [cls]:
+            for st in c.node.body:
+                tgt = st.targets[0] if isinstance(st, ast.Assign) and len(st.targets) == 1 else st.target if isinstance(st, ast.AnnAssign) and st.value is not None else None
+                if isinstance(tgt, ast.Name) and tgt.id == "supported_kernel":
+                    v = st.value
+                    found = True
+                    if isinstance(v, ast.Call) and callee_name(v) == "SupportedKernel" and len(v.args) >= 2:
+                        sk = (ast.unparse(v.args[0]), ast.unparse(v.args[1]))
+                    elif isinstance(v, ast.Constant) and v.value is None:
+                        sk = None
+                    else:
+                        raise AnalysisError(f"{c.where}: supported_kernel of {nm} is not a literal SupportedKernel(...) or None")
+                    break
+            if found:
+                break
+        if not found:
+            raise AnalysisError(f"supported_kernel of {nm} not found")
+        kernels[nm] = sk
+    for qual in ("dispatch_to_dm", "dispatch_to_compute"):
+        f = repo.func(RULES, qual)
+        scans = [n for n in ast.walk(f.node) if isinstance(n, (ast.comprehension, ast.For)) and isinstance(n.iter, ast.Name) and n.iter.id == "XDMA_EXT_SET"]
+        same = [n for n in ast.walk(f.node) if isinstance(n, ast.Call) and callee_name(n) == "is_same_kernel"]
+        if scans and same:
+            chk.ok("C14.all-extensions", f"{f.key}:scan", f.where, f"the kernel is compared with every extension of XDMA_EXT_SET ({len(kernels)} extensions)")
+            continue
+        tables = [n.id for n in ast.walk(f.node) if isinstance(n, ast.Name) and n.id in f.module.consts and isinstance(f.module.consts[n.id], ast.DictComp)]
+        judged = False
+        for t in dict.fromkeys(tables):
+            d = f.module.consts[t]
+            assert isinstance(d, ast.DictComp)
+            g = d.generators[0]
+            if not (len(d.generators) == 1 and isinstance(g.iter, ast.Name) and g.iter.id == "XDMA_EXT_SET" and isinstance(g.target, ast.Name)):
+                continue
+            ev_ = g.target.id
+            ktxt = ast.unparse(d.key)
+            proj = {f"{ev_}.supported_kernel.kernel_type": lambda sk: sk[0], f"{ev_}.supported_kernel": lambda sk: sk,
+                    f"({ev_}.supported_kernel.kernel_type, {ev_}.supported_kernel.types)": lambda sk: sk, f"{ev_}": None, f"{ev_}.name": None}
+            if ktxt not in proj:
+                raise AnalysisError(f"{f.where}: table `{t}` is keyed by `{ktxt}`, which is not evaluated")
+            judged = True
+            if proj[ktxt] is None:
+                chk.ok("C14.all-extensions", f"{f.key}:table:{t}", f.where, f"`{t}` has one entry per extension")
+                continue
+            keys: dict[object, list[str]] = {}
+            for nm, sk in kernels.items():
+                if sk is not None:
+                    keys.setdefault(proj[ktxt](sk), []).append(nm)
+            clash = {str(k): v for k, v in keys.items() if len(v) > 1}
+            chk.result(not clash, "C14.all-extensions", f"{f.key}:table:{t}", f.where, f"`{t}` tells all {len(keys)} kernel-providing extensions apart",
+                       f"`{t}` is keyed by `{ktxt}`, which is the same for {clash}: only the last of them survives in the table, a region whose kernel the other one provides is no "
+                       "longer recognised as data movement (and is not compute either, so it runs on every core)")
+        if not judged:
+            raise AnalysisError(f"{f.where}: how the rule consults the extension set is not recognised")
 
 
 def xdma_by_type(repo: Repo, chk: Check) -> None:
